@@ -40,6 +40,13 @@ TYPES = ["auto", "content", "directory", "origin", "snapshot"]
 VERIFY = ["absent", "matching", "nonMatching"]
 
 
+# URL spellings, several of which parsing and re-composing would not give back unchanged: the
+# origin is the exact string given on the command line
+URLS = ["https://example.org/repo.git", "http://é.example/x y", "git://host/p", "file:///x",
+        "HTTPS://Example.ORG/Repo", "http://host/x?", "http://host/x#", "file:/x", "http://host/a/../b/",
+        "svn+ssh://u@h:22/p;param?q=1#", "http://h/%7euser", "x-y.z+1:foo", "http:///x", "http://host:80"]
+
+
 def all_configs():
     for k, t, d, f, r, v, x in itertools.product(KINDS, TYPES, [True, False], [True, False], [False, True], VERIFY, [False, True]):
         yield {"kind": k, "type": t, "deref": d, "filename": f, "recursive": r, "verify": v, "exclude": x}
@@ -56,6 +63,13 @@ def generate(ctx):
         seed = rng.randrange(2**24) * 7 + (0 if fi == 0 else (rng.randrange(7) if ctx.tier == "quick" else fi % 7))
         for c in cfgs:
             cases.append(dict(c, fixture=seed))
+        if fi == 0:
+            # every URL spelling x every configuration that reaches the origin branch without
+            # the tree options (which do not apply to a URL)
+            for ui in range(len(URLS)):
+                for c in cfgs:
+                    if c["kind"] == "url" and not c["recursive"] and not c["exclude"] and c["deref"]:
+                        cases.append(dict(c, fixture=seed, url=ui))
     ctx.exhaustive_parts.append("all 1680 configurations of the identify command")
     return cases
 
@@ -84,7 +98,7 @@ class Fixture:
         self.link_dir = os.path.join(self.base, b"lnk-dir")
         os.symlink(os.path.basename(self.dir) if rng.random() < 0.5 else self.dir, self.link_dir)
         self.stdin = bytes(rng.randrange(256) for _ in range(rng.choice([0, 7, 300])))
-        self.url = rng.choice(["https://example.org/repo.git", "http://é.example/x y", "git://host/p", "file:///x"])
+        self.url = self.default_url = rng.choice(URLS)
         self.repo = os.path.join(self.base, b"repo")
         self._make_repo()
 
@@ -188,7 +202,7 @@ class Fixture:
         if designated == "directory":
             return "swh:1:dir:" + self.dir_ids(kind, exclude)[b""][1].hex()
         if designated == "origin":
-            return "swh:1:ori:" + hashlib.sha1(self.url.encode("utf-8")).hexdigest()
+            return "swh:1:ori:" + hashlib.sha1(self.url.encode("utf-8")).hexdigest()  # self.url: see use_url
         if designated == "snapshot":
             return self.snapshot_swhid()
 
@@ -310,6 +324,7 @@ def check_cases(ctx, cases):
             ctx.count("out-of-scope")
             continue
         fx = fixture(case["fixture"])
+        fx.url = URLS[case["url"]] if "url" in case else fx.default_url
         ctx.case(case, nontrivial=True)
         ctx.count("kind=" + case["kind"])
         kind = case["kind"]
